@@ -18,6 +18,7 @@ RULE = ("pairs of G-sim trace directories (identical / perturbed: events removed
         "size >= 2. Distinct = hash of both file sets + selection.")
 ASSUMPTIONS = ["well-formed regime (hv/wf.py); iteration reference hv/ref/load.py (C12)", "short names use the repository's shorten_name (trusted helper)",
                "iterations / ranks passed are valid for the traces (the API raises ValueError otherwise)"]
+FLOAT_KEYS = ["control", "test"]          # fractional-time-unit workload class (hv/shard.py)
 PLAN = {"quick": {"shards": 16, "cases": 480, "timeout": 900}, "thorough": {"shards": 16, "cases": 5000, "timeout": 3400}}
 FLOORS = {"quick": {"distinct_nontrivial": 60, "names_judged": 3000, "proper_rank_subsets": 25, "self_comparisons": 25, "short_name_calls": 60, "identical_labels": 60, "ops_diff_called_first": 80, "fractional_duration_rows": 100,
                     "cases_with_a_name_under_two_categories": 60, "tables_after_a_table_in_the_other_naming_mode": 100,
